@@ -517,7 +517,7 @@ pub fn plain_gaps(ntoks: usize) -> Vec<String> {
 // ---------------------------------------------------------------------------
 // Projects over a small adversarial name space
 
-pub const U_PKGS: &[&[&str]] = &[&["p"], &["p", "q"], &["q"], &["other", "p"], &["android", "os"]];
+pub const U_PKGS: &[&[&str]] = &[&["p"], &["p", "q"], &["q"], &["other", "p"], &["android", "os"], &["android"]];
 pub const U_NAMES: &[&str] = &["Foo", "XFoo", "FooX", "FooFoo", "Bar", "IBinder", "ParcelFileDescriptor", "Baz"];
 pub const BUILTIN_QNAMES: &[&str] = &[
     "android.os.IBinder",
@@ -560,6 +560,11 @@ fn reference_names(defined: &[Name]) -> Vec<Name> {
     v.push(vec!["Nope".to_owned()]);
     v.push(split("other.p.Foo"));
     v.push(split("os.IBinder"));
+    // near misses of the built-ins' qualified names
+    for n in ["android.IBinder", "android.ParcelFileDescriptor", "java.FileDescriptor", "a.ParcelableHolder", "java.io.FileDescriptor",
+        "android.os.x.IBinder", "os.ParcelFileDescriptor", "ndroid.os.ParcelFileDescriptor", "android.os.Parcelfiledescriptor"] {
+        v.push(split(n));
+    }
     v
 }
 
@@ -613,7 +618,13 @@ pub fn project(s: &mut Src, pc: &ProjectCfg) -> ProjectM {
             let im = match s.weighted(&[8, 3, 2, 2]) {
                 0 => s.pick(&defined).clone(),
                 1 => universe_key(s),
-                2 => split(*s.pick(BUILTIN_QNAMES)),
+                2 => {
+                    if s.chance(1, 4) {
+                        split(*s.pick(&["android.IBinder", "java.FileDescriptor", "java.io.FileDescriptor", "a.ParcelableHolder", "android.ParcelFileDescriptor"]))
+                    } else {
+                        split(*s.pick(BUILTIN_QNAMES))
+                    }
+                }
                 _ => {
                     if imports.is_empty() {
                         s.pick(&defined).clone()
